@@ -41,7 +41,7 @@ ASSUMPTIONS = [
 ]
 
 REWRITES = ["tr_obj", "tr_str", "tr_list", "tr_unlist", "always_on", "cond_guard", "act_list", "act_unlist", "act_obj", "act_str",
-            "delay_key", "initial_omit", "tgt_abs", "tgt_cid", "tgt_rel", "tgt_key", "tgt_path"]
+            "delay_key", "initial_omit", "guard_kids", "tgt_abs", "tgt_cid", "tgt_rel", "tgt_key", "tgt_path"]
 CORE_FAMILIES = ("T", "H", "D", "S", "R", "G", "E")
 
 
@@ -655,7 +655,7 @@ def run(prop: str, tier: str, seed: int) -> int:
     cov["distinct_nontrivial"] = cov["respelt_configs_differing"] + cov["corruption_cases"] + cov["negative_cases"]
     cov["exhaustive"] = False
     cov["rule"] = ("families W (random mix of spellings over every construct) + T/H/D/S/R/G/E/X/V/A; per machine: the rewrite sets "
-                   "{none, all, each single, random subsets (thorough: all pairs)} of 17 documented respellings, every node x 11 wrong-typed "
+                   "{none, all, each single, random subsets (thorough: all pairs)} of 18 documented respellings, every node x 11 wrong-typed "
                    "values, plus 15 hand-built uninterpretable configs; distinct = respelt configs that differ textually + corruption cases")
     if not cov["samples"]:
         cov["samples"] = [{"note": "no sample"}]
